@@ -38,7 +38,7 @@ impl Scenario for Depth {
         "fault_enumeration"
     }
     fn rule(&self) -> &'static str {
-        "per case one subject that contains heap containers (Vec, VecDeque, BinaryHeap, LinkedList, BTreeMap, BTreeSet, Box, Rc, Arc, String, bit sequences, recursive Tree/Chain up to 14 levels), one byte string (honest encoding of a wide-but-shallow or deep-but-narrow value, or damaged / truncated / random) and one source; unlimited result R first, then EVERY limit L in 0..=D_hi+2 through the depth wrapper as outermost layer over the drawn source (with optional inner non-binding layers), through T::decode_with_depth_limit on the slice and through decode_all_with_depth_limit with and without a trailing byte; oracle: result(L) in {R, Err}, monotone in L, equal to R for L >= D_hi (every heap container on the deepest path), Err for L < D_lo (containers that are recursed through), consume-all variant rejects trailing bytes; one sub-run per (L, entry point); non-trivial = every sub-run with L < D_hi+1 (a descend_ref call can fail)"
+        "per case one subject that contains heap containers (Vec, VecDeque, BinaryHeap, LinkedList, BTreeMap, BTreeSet, Box, Rc, Arc, String, bit sequences, recursive Tree/Chain up to 14 levels), one byte string (honest encoding of a wide-but-shallow or deep-but-narrow value, or damaged / truncated / random) and one source; unlimited result R first, then EVERY limit L in 0..=D_hi+2 through the depth wrapper over the drawn source (with optional inner non-binding layers and, in a third of the cases, one or two non-binding CountedInput / memory-tracking / depth wrappers stacked above it, which have to forward descend/ascend), through T::decode_with_depth_limit on the slice and through decode_all_with_depth_limit with and without a trailing byte; oracle: result(L) in {R, Err}, monotone in L, equal to R for L >= D_hi (every heap container on the deepest path), Err for L < D_lo (containers that are recursed through), consume-all variant rejects trailing bytes; one sub-run per (L, entry point); non-trivial = every sub-run with L < D_hi+1 (a descend_ref call can fail)"
     }
     fn cases(&self, tier: Tier) -> u64 {
         tiered(tier, 500_000, 20_000_000)
@@ -96,6 +96,16 @@ impl Scenario for Depth {
                 src.layers.insert(0, Layer::Mem(*rng.pick(&[0u64, 1, 8, 64, 1000])));
             }
             p.sources.push(src);
+            // Non-binding wrappers stacked *above* the depth wrapper (as a type that decodes a
+            // field through CountedInput or a memory tracker would do): they have to forward
+            // descend_ref / ascend_ref.  Drawn last so that all other plan fields are unchanged.
+            if rng.chance(1, 3) {
+                let mut code = 0i64;
+                for _ in 0..rng.range(1, 2) {
+                    code = code * 4 + 1 + rng.below(3) as i64;
+                }
+                p.set("outer_layers", code);
+            }
             return p;
         }
     }
@@ -103,6 +113,19 @@ impl Scenario for Depth {
         let s = catalogue().get(&plan.subject);
         let bytes = plan_bytes(plan);
         let src = plan.source0();
+        let mut outer: Vec<Layer> = Vec::new();
+        let mut code = plan.param("outer_layers");
+        while code > 0 {
+            outer.push(match code % 4 {
+                1 => Layer::Counted,
+                2 => Layer::Mem(u64::MAX),
+                _ => Layer::Depth(u32::MAX),
+            });
+            code /= 4;
+        }
+        if !outer.is_empty() {
+            st.probe("wrappers_above_depth_layer");
+        }
         let r = (s.decode)(&bytes, &src, Mode::Decode);
         st.note(salt(&[s.name, &src.describe(), "unlimited", if r.res.is_ok() { "ok" } else { "err" }]), &r.trace, bytes.len() > 1);
         // depth measures from the decoded value
@@ -129,6 +152,7 @@ impl Scenario for Depth {
             // (1) wrapper as outermost layer (layer lists are innermost-first) over the drawn source
             let mut ls = src.clone();
             ls.layers.push(Layer::Depth(l));
+            ls.layers.extend(outer.iter().cloned());
             let a = (s.decode)(&bytes, &ls, Mode::Decode);
             // (2) direct entry point on the slice (only comparable when the drawn source has no
             // binding layer of its own)
@@ -196,6 +220,7 @@ impl Scenario for Depth {
         for l in [i32::MAX as u32, 1u32 << 31, (1u32 << 31) + 1, u32::MAX - 1, u32::MAX] {
             let mut ls = src.clone();
             ls.layers.push(Layer::Depth(l));
+            ls.layers.extend(outer.iter().cloned());
             let a = (s.decode)(&bytes, &ls, Mode::Decode);
             let b = if src.layers.iter().any(|x| matches!(x, Layer::Mem(m) if *m != u64::MAX)) { (s.decode)(&bytes, &ls, Mode::Decode) } else { (s.decode)(&bytes, &slice, Mode::DepthDirect(l)) };
             for (name, out) in [("layer", &a), ("direct", &b)] {
@@ -308,7 +333,7 @@ impl Scenario for DeepStack {
         "fault_enumeration"
     }
     fn rule(&self) -> &'static str {
-        "stack safety: recursive Tree / Chain / Vec<Tree> inputs nested 10^3, 10^4, 10^5, 10^6 levels (all boxes, all vectors, maps, lists, shared pointers, mixed) decoded with limits {0,1,16,100,256} through slice, unknown-length Input and short-read reader on a thread with a 1 MiB stack: must return Err and the thread and process must survive (a stack overflow kills the worker and is reported by the supervisor)"
+        "stack safety: recursive Tree / Chain / Vec<Tree> inputs nested 10^3, 10^4, 10^5, 10^6 levels (all boxes, all vectors, maps, lists, shared pointers, mixed) decoded with limits {0,1,16,100,256} through slice, unknown-length Input (with a CountedInput above the depth wrapper) and short-read reader on a thread with a 1 MiB stack: must return Err and the thread and process must survive (a stack overflow kills the worker and is reported by the supervisor)"
     }
     fn cases(&self, tier: Tier) -> u64 {
         let d = if tier == Tier::Quick { 3 } else { 4 };
@@ -341,7 +366,8 @@ impl Scenario for DeepStack {
         let mut results = Vec::new();
         for l in LIMITS {
             let mut ls = src.clone();
-            ls.layers = vec![Layer::Depth(l)];
+            // the unknown-length source also gets a byte counter above the depth wrapper
+            ls.layers = if src.base == Base::SimInput { vec![Layer::Depth(l), Layer::Counted] } else { vec![Layer::Depth(l)] };
             let bytes2 = bytes.clone();
             let ls2 = ls.clone();
             // 1 MiB stack, as a constrained embedder would have
